@@ -185,6 +185,13 @@ int main(int argc, char **argv) {
       }
       o << "]}";
     }
+    o << "],\"declares\":[";
+    { bool fd = true;
+      for (auto &BB : F) for (auto &I : BB) if (auto *dd = dyn_cast<DbgDeclareInst>(&I)) {
+        if (!dd->getVariable() || !dd->getAddress() || !isa<Instruction>(dd->getAddress())) continue;
+        if (!fd) o << ","; fd = false;
+        o << "{\"var\":\"" << esc(dd->getVariable()->getName()) << "\",\"v\":" << C.ids[cast<Instruction>(dd->getAddress())] << "}";
+      } }
     o << "]}";
   }
   o << "],\"dtypes\":[";
